@@ -170,5 +170,19 @@ theorem history_blocks_get' (hlen : ∀ b, (H b).length = 32) (prune : Bool) (st
     (runF H (FWorld.init H prune) steps).2.get H false key = .ok (spec (flattenSteps steps) key) :=
   history_blocks_get H hlen prune steps (good_of_good' H prune steps h) hbk hsm key
 
+/-- the root theorem under the weaker premise: Yellow Paper root of the calls that count -/
+theorem history_blocks_root' (hlen : ∀ b, (H b).length = 32) (prune : Bool) (steps : List HStep)
+    (h : Good' H (freshW H prune) steps) :
+    (runF H (FWorld.init H prune) steps).2.outer.root = rootHash H (run (flattenSteps steps)) :=
+  (history_blocks_root H hlen prune steps (good_of_good' H prune steps h)).1
+
+/-- exact pruning under the weaker premise -/
+theorem history_blocks_pruning_exact' (hlen : ∀ b, (H b).length = 32) (steps : List HStep)
+    (h : Good' H (freshW H true) steps) :
+    (∀ x, (runF H (FWorld.init H true) steps).2.counts.val x = occRoot (stdHashing H) (run (flattenSteps steps)) x) ∧
+    (∀ x, Dict.contains (runF H (FWorld.init H true) steps).2.base x = true ↔
+            0 < occRoot (stdHashing H) (run (flattenSteps steps)) x) :=
+  history_blocks_pruning_exact H hlen steps (good_of_good' H true steps h)
+
 end
 end PyTrie.Props.Free
